@@ -201,6 +201,8 @@ class RCModel:
             return ('tuple',) + tuple(args[1:])
         if name == 'PyObject_IsTrue':
             return 1 if args[0] is g['Py_True'] else 0
+        if name == 'PyBool_FromLong':
+            return g['Py_True'] if interp.truth(args[0]) else g['Py_False']
         raise AnalysisError('call %s is outside the comparison model' % name)
 
 
